@@ -104,10 +104,12 @@ pub struct AsyncSender<T: Send> {
 pub struct AsyncReceiver<T: Send> {
   shared: Arc<MpmcShared<T>>,
   closed: AtomicBool,
-  /// Inline state flag for the `Stream` impl. A raw pointer to this field is stored
-  /// in `waiting_async_receivers` while the stream is parked. Eagerly unlinked on
-  /// drop / `to_sync` before the struct is freed.
-  pub(super) state: AtomicU8,
+  /// State flag for the `Stream` impl. A raw pointer to it is stored in
+  /// `waiting_async_receivers` while the stream is parked, so it lives on the heap:
+  /// the receiver itself is `Unpin` and may be moved between polls (`to_sync(self)`
+  /// always moves it), which would leave a pointer to an inline field dangling.
+  /// Eagerly unlinked on drop / `to_sync` before the allocation is freed.
+  pub(super) state: Box<AtomicU8>,
   pub(super) is_registered: bool,
 }
 
@@ -173,7 +175,7 @@ pub fn bounded_async<T: Send>(capacity: usize) -> (AsyncSender<T>, AsyncReceiver
     AsyncReceiver {
       shared,
       closed: AtomicBool::new(false),
-      state: AtomicU8::new(STATE_WAITING),
+      state: Box::new(AtomicU8::new(STATE_WAITING)),
       is_registered: false,
     },
   )
@@ -226,7 +228,7 @@ impl<T: Send> Clone for AsyncReceiver<T> {
     AsyncReceiver {
       shared: Arc::clone(&self.shared),
       closed: AtomicBool::new(false),
-      state: AtomicU8::new(STATE_WAITING),
+      state: Box::new(AtomicU8::new(STATE_WAITING)),
       is_registered: false,
     }
   }
@@ -645,7 +647,7 @@ impl<T: Send> Receiver<T> {
     AsyncReceiver {
       shared,
       closed: AtomicBool::new(closed),
-      state: AtomicU8::new(STATE_WAITING),
+      state: Box::new(AtomicU8::new(STATE_WAITING)),
       is_registered: false,
     }
   }
@@ -1038,7 +1040,7 @@ impl<T: Send> AsyncReceiver<T> {
   /// `AsyncReceiver` is not called.
   pub fn to_sync(self) -> Receiver<T> {
     if self.is_registered {
-      let state_ptr = &self.state as *const AtomicU8;
+      let state_ptr = &*self.state as *const AtomicU8;
       match self.state.compare_exchange(
         STATE_WAITING,
         STATE_CANCELLED,
@@ -1066,8 +1068,11 @@ impl<T: Send> AsyncReceiver<T> {
       }
     }
     let shared = unsafe { std::ptr::read(&self.shared) };
+    // The stream state is unlinked above; free its allocation (forget skips our Drop).
+    let state = unsafe { std::ptr::read(&self.state) };
     let closed = self.closed.load(Ordering::Relaxed);
-    mem::forget(self); // AtomicU8 has no destructor; safe to forget.
+    mem::forget(self);
+    drop(state);
     Receiver {
       shared,
       closed: AtomicBool::new(closed),
@@ -1100,7 +1105,7 @@ impl<T: Send> Drop for AsyncReceiver<T> {
   fn drop(&mut self) {
     let _ = self.close();
     if self.is_registered {
-      let state_ptr = &self.state as *const AtomicU8;
+      let state_ptr = &*self.state as *const AtomicU8;
       match self.state.compare_exchange(
         STATE_WAITING,
         STATE_CANCELLED,
